@@ -3,6 +3,11 @@
    of [spec_eq] / [spec_cmp] on [abs a], [abs b] (any capacities, any layouts:
    the three-way segment alignment never goes out of bounds), hashing feeds the
    length then the elements of [abs a], Debug formats the elements of [abs a].
+   The element type has one NaN-like value [nan_val]: it equals nothing (itself
+   included) and is unordered against everything under partial_cmp, while
+   Ord::cmp stays the total order on values; so a buffer containing it is not
+   equal to itself (C13_nan_not_equal_to_itself: an "identical object =>
+   equal" shortcut is excluded) and partial_cmp is [lex_partial].
    Debug of an Iter / IterMut / Drain / IntoIter, after any script on it,
    formats exactly the elements it would still yield, front to back, and
    consumes nothing (the Drain / IntoIter then destroys them as usual).
@@ -67,25 +72,96 @@ Theorem C13_eq_iff_equal_sequences :
   forall a b w r a' w',
   WF a -> WF b -> fault w = None ->
   exec (OEq b) a w = (Ok (OutBool r), a', w') ->
-  (r = true <-> vals (abs a) = vals (abs b)) /\ abs a' = abs a.
+  (r = true <-> vals (abs a) = vals (abs b) /\ ~ In nan_val (vals (abs a))) /\ abs a' = abs a.
 Proof. exact (exec_eq_iff). Qed.
 Print Assumptions C13_eq_iff_equal_sequences.
+
+Theorem C13_eq_iff_equal_sequences_total :
+  forall a b w r a' w',
+  WF a -> WF b -> fault w = None -> ~ In nan_val (vals (abs a)) ->
+  exec (OEq b) a w = (Ok (OutBool r), a', w') ->
+  (r = true <-> vals (abs a) = vals (abs b)) /\ abs a' = abs a.
+Proof. exact (exec_eq_iff_total). Qed.
+Print Assumptions C13_eq_iff_equal_sequences_total.
 
 Theorem C13_eq_slice_iff :
   forall form xs a w r a' w',
   WF a -> zlen xs < W -> fault w = None ->
   exec (OEqSlice form xs) a w = (Ok (OutBool r), a', w') ->
-  (r = true <-> vals (abs a) = vals xs) /\ abs a' = abs a.
+  (r = true <-> vals (abs a) = vals xs /\ ~ In nan_val (vals (abs a))) /\ abs a' = abs a.
 Proof. exact (exec_eq_slice_iff). Qed.
 Print Assumptions C13_eq_slice_iff.
+
+Theorem C13_eq_slice_iff_total :
+  forall form xs a w r a' w',
+  WF a -> zlen xs < W -> fault w = None -> ~ In nan_val (vals (abs a)) ->
+  exec (OEqSlice form xs) a w = (Ok (OutBool r), a', w') ->
+  (r = true <-> vals (abs a) = vals xs) /\ abs a' = abs a.
+Proof. exact (exec_eq_slice_iff_total). Qed.
+Print Assumptions C13_eq_slice_iff_total.
+
+Theorem C13_nan_not_equal_to_itself :
+  forall a w,
+  WF a -> fault w = None -> In nan_val (vals (abs a)) ->
+  exists w', exec (OEq a) a w = (Ok (OutBool false), a, w').
+Proof. exact (eq_self_nan). Qed.
+Print Assumptions C13_nan_not_equal_to_itself.
+
+Theorem C13_partial_ordering :
+  forall a b w r a' w',
+  WF a -> WF b -> fault w = None ->
+  exec (OPartialCmp b) a w = (Ok (OutOrd r), a', w') ->
+  r = lex_partial (vals (abs a)) (vals (abs b)) /\ abs a' = abs a.
+Proof. exact (exec_cmp_partial). Qed.
+Print Assumptions C13_partial_ordering.
+
+Theorem C13_partial_ordering_undecided :
+  forall a b w r a' w',
+  WF a -> WF b -> fault w = None ->
+  exec (OPartialCmp b) a w = (Ok (OutOrd r), a', w') ->
+  (r = None <->
+   exists p x xs' y ys', vals (abs a) = p ++ x :: xs' /\ vals (abs b) = p ++ y :: ys' /\
+     ~ In nan_val p /\ (x = nan_val \/ y = nan_val)).
+Proof. exact (exec_cmp_none). Qed.
+Print Assumptions C13_partial_ordering_undecided.
 
 Theorem C13_ordering_lexicographic :
   forall a b w r a' w',
   WF a -> WF b -> fault w = None ->
+  ~ In nan_val (vals (abs a)) -> ~ In nan_val (vals (abs b)) ->
   exec (OPartialCmp b) a w = (Ok (OutOrd r), a', w') ->
   r = Some (lex_compare (vals (abs a)) (vals (abs b))) /\ abs a' = abs a.
 Proof. exact (exec_cmp_lex). Qed.
 Print Assumptions C13_ordering_lexicographic.
+
+Theorem C13_total_ordering_lexicographic :
+  forall a b w r a' w',
+  WF a -> WF b -> cap b = cap a -> fault w = None ->
+  exec (OCmp b) a w = (Ok (OutOrd r), a', w') ->
+  r = Some (lex_compare (vals (abs a)) (vals (abs b))) /\ abs a' = abs a.
+Proof. exact (exec_ord_cmp_lex). Qed.
+Print Assumptions C13_total_ordering_lexicographic.
+
+Theorem C13_nan_value :
+  nan_val = 13.
+Proof. exact (eq_refl). Qed.
+Print Assumptions C13_nan_value.
+
+Theorem C13_lex_partial_def :
+  forall xs ys, lex_partial xs ys =
+  match xs, ys with
+  | [], [] => Some Eq
+  | [], _ :: _ => Some Lt
+  | _ :: _, [] => Some Gt
+  | x :: xs', y :: ys' =>
+    if (x =? nan_val) || (y =? nan_val) then None else
+    match x ?= y with
+    | Eq => lex_partial xs' ys'
+    | c => Some c
+    end
+  end.
+Proof. exact (fun xs ys => match xs, ys with [], [] | [], _ :: _ | _ :: _, [] | _ :: _, _ :: _ => eq_refl end). Qed.
+Print Assumptions C13_lex_partial_def.
 
 Theorem C13_equal_contents_hash_equally :
   forall a b w va a' wa vb b' wb,
